@@ -19,6 +19,31 @@ def is_failure_return(ctx, ret, fn):
     return ctx.ret_status(ret) == 'fail'
 
 
+# Reviewed exemptions (one symbol each, with the reason).  key: (function, effect label prefix, failing callee)
+EXEMPT = {
+    ('bus_registry_acquire_service', 'owner-flags-changed', 'bus_activation_send_pending_auto_activation_messages'):
+        'send_pending allocates only if a pending activation exists for the name, which requires the name to have '
+        'no owner; in the ALREADY_OWNER branch it has one',
+    ('bus_registry_acquire_service', 'owner-queue-edit', 'bus_activation_send_pending_auto_activation_messages'):
+        'same: in the EXISTS branch the name has an owner, so no pending activation can exist for it',
+}
+
+
+def primary_conn_arg(fn, call):
+    """bus_service_remove_owner (service, X, ..) where every non-NULL definition of X is
+    primary_owner->conn: the callee's non-primary (unhooked) branch is unreachable."""
+    a = call['args'][1] if len(call['args']) > 1 else None
+    if a is None or not is_ref(a):
+        return False
+    defs = []
+    for b, i, ev in fn.events():
+        for lhs, how, rhs in written_lvalues(ev):
+            if is_ref(lhs) and lhs.get('id') == a.get('id') and how in ('=', 'decl') and rhs is not None:
+                defs.append(rhs)
+    return bool(defs) and all(is_int(d, 0) or (is_member(d, 'conn', 'BusOwner') and is_ref(d['base'], 'primary_owner'))
+                              for d in defs)
+
+
 def irrevocable_last(fn, effects, neutral, summaries=None, hooked_after=()):
     """Explore fn.  effects(ev, ctx) -> label|None (an effect that the transaction
     cannot undo); neutral(ev, ctx) -> set of labels cleared ('*' = all).
@@ -26,8 +51,11 @@ def irrevocable_last(fn, effects, neutral, summaries=None, hooked_after=()):
     such effects.  Returns (violations {label: (line, path)}, success_pending labels)."""
     viol = {}
     succ_pending = set()
+    exempted = set()
     summaries = summaries or {}
-    sumcalls = {c['id']: c.get('callee') for b, i, c in fn.calls() if c.get('callee') in summaries}
+    sumcalls = {c['id']: c.get('callee') for b, i, c in fn.calls() if c.get('callee') in summaries
+                and not (c.get('callee') == 'bus_service_remove_owner' and primary_conn_arg(fn, c))}
+    fallible = {c['id']: c.get('callee') for b, i, c in fn.calls() if c.get('callee')}
 
     def on_event(user, ev, ctx):
         pending, hooked = user
@@ -69,7 +97,14 @@ def irrevocable_last(fn, effects, neutral, summaries=None, hooked_after=()):
             return
         st = ctx.ret_status(ret)
         if st in ('fail', 'unknown'):
+            failed = {fallible[k[1]] for k, v in ctx.env.items()
+                      if k[0] == 'res' and v is False and k[1] in fallible}
             for lab, line in lv:
+                ex_ok = failed and all((fn.name, lab.split('[')[0], f) in EXEMPT for f in failed
+                                       if f not in ('dbus_error_is_set',))
+                if ex_ok:
+                    exempted.add((lab, tuple(sorted(failed))))
+                    continue
                 if lab not in viol and st == 'fail':
                     viol[lab] = (line, ev['line'], ctx.trace())
         if st in ('ok', 'unknown'):
@@ -80,6 +115,7 @@ def irrevocable_last(fn, effects, neutral, summaries=None, hooked_after=()):
                       'bus_connection_complete', 'bus_matchmaker_add_rule', 'bus_matchmaker_remove_rule_by_value',
                       'bus_activation_send_pending_auto_activation_messages'},
                   track='auto', cap=400000).run()
+    ex.exempted = exempted
     return viol, succ_pending, ex
 
 
@@ -131,6 +167,9 @@ def c14_1(ck, prog):
                             'the transaction' % (name, exitline, lab, line), path)
         else:
             r.ok('%s:irrevocable-last' % name, {'may_succeed_with_unhooked': sorted(sp), 'states': ex.nstates})
+        for lab, failed in sorted(ex.exempted):
+            r.note('%s: exempted (effect %s, failing step %s): %s' % (
+                name, lab, ','.join(failed), EXEMPT.get((name, lab.split('[')[0], failed[0]), '')))
     r.note('summaries (may return success having performed changes no cancel hook undoes): %s' % {
         k: sorted(v) for k, v in summ.items()})
     # handlers
